@@ -44,5 +44,13 @@ func init() {
 		"stores every field the parameterless constructor stores.", "")
 	add("C15", "R15d (E7 order classes): the deletion targets recorded for a block are sorted ascending before they reach deTwin, when the block is recorded and when TTLs are "+
 		"generated. R15e: the generator recomputes the TTL table before reading it, or refreshes it under a test of a field that recording a block resets. R15f: every root-info "+
-		"state recorded for a block (except the first) is dominated by the call that applies the block's deletions to the previous root infos.", "")
+		"state recorded for a block (except the first) is dominated by the call that applies the block's deletions to the previous root infos. R15g: a package function whose "+
+		"error result is discarded is applied to an element of a position list only behind an exact existence test of that element against the leaf count, unless the list is "+
+		"tabled as holding existing positions only (recorded deletions).", "")
+	add("C13", "R13f: a record buffer that outlives one record has every byte the per-record region assigns assigned on every path to the write. R13g: the caller's io.Reader flows only "+
+		"into io.ReadFull / io.ReadAtLeast and package stream functions, never into a wrapper that may read ahead of the reported count.", "")
+	add("C14", "R14g: the hashes supplied for the missing positions (a subsequence of the canonical proof positions) are read through their own cursor, advanced only where one is "+
+		"consumed. R14h: every result of the missing-positions method for a non-empty request is reached through look-ups of the node store.", "")
+	add("C03", "R03i: neither hash input of the parent-hash step in the core can be the default value of its variable (no path leaves the sibling unassigned).", "")
+	add("C04", "R04e also covers the mirror image: a library-computed slice indexed by a counter whose only bound is the length of a caller-supplied slice needs a dominating test relating the two lengths (verification bounds the caller's lists from below only).", "")
 }
